@@ -12,10 +12,10 @@ let commas s = List.filter (fun x -> x <> "") (String.split_on_char ',' s)
 let parse_op (tok : string) : op list =
   let a = rest tok in
   match tok.[0] with
-  | 's' -> (match commas a with [l; ad] -> [OSend (z_of_string l, ad = "1")] | _ -> failwith tok)
-  | 't' -> (match commas a with [l; ad] -> [OTry (z_of_string l, ad = "1")] | _ -> failwith tok)
+  | 's' -> (match commas a with [l; ad] -> [OSend (n_of_string l, ad = "1")] | _ -> failwith tok)
+  | 't' -> (match commas a with [l; ad] -> [OTry (n_of_string l, ad = "1")] | _ -> failwith tok)
   | 'u' -> (match commas a with
-            | f :: ls -> [OTry2 (List.map z_of_string ls, z_of_string f)]
+            | f :: ls -> [OTry2 (List.map n_of_string ls, z_of_string f)]
             | _ -> failwith tok)
   | 'g' -> [OGet]
   | 'p' -> [ORecvStart]
@@ -28,7 +28,7 @@ let parse_op (tok : string) : op list =
 let parse_ops s = List.concat_map parse_op (split_on ' ' s)
 
 let parse_sans (tok : string) : sans =
-  if tok.[0] = 'E' then SErr (z_of_string (rest tok)) else SRet (n_of_string tok)
+  if tok.[0] = 'E' then SErr (pos_of_bz (BZ.of_string (rest tok))) else SRet (n_of_string tok)
 
 let parse_rans (tok : string) : rans =
   if tok.[0] = 'E' then RErr (z_of_string (rest tok))
@@ -38,7 +38,7 @@ let parse_rans (tok : string) : rans =
     | [i; l; t] -> { m_id = nat_ i; m_len = z_of_string l; m_trunc = (t = "1") }
     | _ -> failwith ("bad msg " ^ m)) (split_on '/' tok))
 
-let str_sans = function SRet r -> string_of_n r | SErr e -> "E" ^ string_of_z e
+let str_sans = function SRet r -> string_of_n r | SErr e -> "E" ^ BZ.to_string (bz_of_pos e)
 let str_rans = function
   | RErr e -> "E" ^ string_of_z e
   | RMsgs [] -> "0"
